@@ -31,6 +31,13 @@ NOTES = {  # seeds the checks missed at first, and what was added to catch them
     "C20-b2": "after signer ids of all three kinds (rotated key)", "C21-b2": "after `Bounce` (close + reopen of the transport) and `Greedy`",
     "C22-b1": "after a validly signed undecodable memo under a reused memo id", "C22-b2": "after signer ids of all three kinds",
     "C30-b2": "after runs ended by faults / keyboard interrupt were added to C30",
+    # round 3 of seeds (cK: "two cooperating sites / helpers / rarely taken paths"), one change per property
+    "C06-c1": "after configuration `dd-idle-removed` (an idle DoDoer(always=True), done flag True while it runs, removed by its parent)",
+    "C11-c1": "after every second accepted connection was reset by its peer (shutdown() answers ENOTCONN, the descriptor stays open)",
+    "C12-c1": "after answer pattern `blocked` in Idle.tla (the peer stopped reading: every send() would block, an attempt is not traffic)",
+    "C19-c1": "after script `created` (201 with a Location field, nothing to follow) in ClientQueue.tla",
+    "C22-c1": "after class `unverifiable` in RxGuard.tla (transferable signer id that is not in the receiver's keep)",
+    "C24-c1": "after `HolesSpec` (histories that begin with three values under one key: ordinals with holes)",
     "C11-a2": "patch no longer applies after the follow-up repair of ServerTls.close; the re-based demo passes on the patched "
               "tree too (garbage collection closes the socket) - kept as own mutant, caught by the single-peer deep histories",
 }
